@@ -311,6 +311,38 @@ def run(ctx):
             ok2 = isinstance(arg, dict) and arg.get("k") == "b" and arg.get("op") == "<<" and const_val(arg["r"]) >= 1 and \
                 ig.ev_of(strip_cast(arg["l"])) is not None and ig.ev_of(strip_cast(arg["l"])).ev.get("name") == "bucket_count"
             ctx.ob("C03.R5d", inst, ok2, N.where, "a growth table must be at least twice the bucket count of the full table it follows")
+        # R5e the chain-level verdict is the table-level verdict: every pair returned carries the `.second` of the table emplace
+        # whose position it carries (or a literal false) - never a verdict of its own
+        if fn.name == "emplace":
+            rets = [n for n in ig.ev_nodes() if n.id in live and n.ev["e"] == "ret" and n.frame.id == 0]
+            tabs = [n for n in ig.ev_nodes() if n.id in live and n.ev["e"] == "call" and n.ev.get("name") in ("emplace", "do_emplace") and
+                    re.match(r"^babylon::ConcurrentFixedSwissTable<.*>$", n.ev.get("rec", "") or "")]
+            okv = bool(rets) and bool(tabs)
+            for r_ in rets:
+                c_ = ig.ev_of(strip_cast(ig.resolve(r_.ev.get("v"), r_.frame)))
+                if c_ is None or c_.ev["e"] != "ctor" or len(c_.ev.get("args", [])) != 2:
+                    okv = False
+                    continue
+                flag = strip_cast(ig.resolve(c_.ev["args"][1], c_.frame))
+                if const_val(flag) == 0:
+                    continue
+                src = None
+                if isinstance(flag, dict) and flag.get("k") == "f" and flag.get("n") == "second":
+                    os_ = ig.origins_at(strip_cast(flag.get("b")), c_)
+                    src = [ig.ev_of(strip_cast(o)) for o in os_]
+                pos_src = []
+                for sd in walk(ig.resolve(c_.ev["args"][0], c_.frame)):
+                    if isinstance(sd, dict) and sd.get("k") == "e":
+                        e_ = ig.ev_of(sd)
+                        for a_ in (e_.ev.get("args", []) if e_ is not None else []):
+                            a_ = strip_cast(ig.resolve(a_, e_.frame))
+                            if isinstance(a_, dict) and a_.get("k") == "f" and a_.get("n") == "first":
+                                pos_src += [ig.ev_of(strip_cast(o)) for o in ig.origins_at(strip_cast(a_.get("b")), e_)]
+                okv = okv and bool(src) and all(x in tabs for x in src) and (not pos_src or set(x.id for x in pos_src if x is not None) == set(x.id for x in src))
+            ctx.ob("C03.R5e", inst, okv, fn.loc,
+                   "the success flag returned by the chain-level emplace must be the `.second` of the table-level emplace that produced "
+                   "the position it returns: a table that is already published can be reached by another inserter of the same key, so "
+                   "'I appended this table' does not imply 'I inserted this key'", site="%s@verdict" % inst)
     ctx.floor("C03.R5", n5, 3, "growth functions (CAS on next)")
 
 
